@@ -41,16 +41,35 @@ var solvers = []solverSpec{
 	}},
 }
 
+// prlimitPath: util-linux prlimit, used to give solver processes a CPU-time budget.
+var prlimitPath = func() string {
+	p, err := exec.LookPath("prlimit")
+	if err != nil {
+		return ""
+	}
+	return p
+}()
+
 func runSolver(ctx context.Context, s solverSpec, file string, timeout time.Duration, seed int) (answer, out string, secs float64) {
-	args := s.args(file, timeout, seed)
-	cctx, cancel := context.WithTimeout(ctx, timeout+2*time.Second)
+	// The budget is CPU time (prlimit), so that the answer does not depend on how
+	// busy the machine is; wall-clock limits are six times larger and only a backstop.
+	wall := 6 * timeout
+	args := s.args(file, wall, seed)
+	cctx, cancel := context.WithTimeout(ctx, wall+2*time.Second)
 	defer cancel()
+	if prlimitPath != "" {
+		args = append([]string{prlimitPath, fmt.Sprintf("--cpu=%d", int(timeout.Seconds()+0.999))}, args...)
+	}
 	cmd := exec.CommandContext(cctx, args[0], args[1:]...)
 	var buf bytes.Buffer
 	cmd.Stdout = &buf
 	cmd.Stderr = &buf
 	start := time.Now()
-	_ = cmd.Run()
+	runErr := cmd.Run()
+	killed := false
+	if ee, ok := runErr.(*exec.ExitError); ok && !ee.Exited() {
+		killed = true // ended by a signal: the CPU budget (or the wall backstop) ran out
+	}
 	secs = time.Since(start).Seconds()
 	out = buf.String()
 	first := ""
@@ -68,7 +87,7 @@ func runSolver(ctx context.Context, s solverSpec, file string, timeout time.Dura
 	case "timeout":
 		answer = "timeout"
 	default:
-		if cctx.Err() != nil || strings.Contains(out, "timeout") || strings.Contains(out, "interrupted") {
+		if killed || cctx.Err() != nil || strings.Contains(out, "timeout") || strings.Contains(out, "interrupted") {
 			answer = "timeout"
 		} else {
 			answer = "error"
